@@ -4,6 +4,7 @@ import (
 	"bufio"
 	"encoding/json"
 	"flag"
+	"flytsa/internal/eng"
 	"fmt"
 	"os"
 	"path/filepath"
@@ -187,6 +188,9 @@ func check(args []string) {
 	var cfgNames []string
 	var files []string
 	for i, bc := range configs(*tierName) {
+		// every configuration is a program of its own: interned terms carry pointers into the
+		// program they were built for (functions, types) and must not leak into the next one
+		eng.ResetInterning()
 		opt := bc.opt
 		opt.Dir = *dir
 		opt.Overlay = overlay
